@@ -166,7 +166,7 @@ theorem gather_sublist : ∀ (n : Nat) (xs : List β) (is : List Nat) (ys : List
       have hil : i < xs.length := (List.getElem?_eq_some_iff.mp hx).1
       have hxe : xs[i] = x := (List.getElem?_eq_some_iff.mp hx).2
       have hd : xs.drop i = x :: xs.drop (i + 1) := by rw [List.drop_eq_getElem_cons hil, hxe]
-      calc (x :: r).Sublist (x :: xs.drop (i + 1)) := ih.cons₂ x
+      calc (x :: r).Sublist (x :: xs.drop (i + 1)) := ih.cons_cons x
         _ = xs.drop i := hd.symm
         _ |>.Sublist xs := List.drop_sublist _ _
 
@@ -307,6 +307,14 @@ theorem rep_eq_nil_iff {n : Nat} {xs : List β} (hn : 0 < n) : rep n xs = [] ↔
   | cons x xs =>
     simp only [rep, List.flatMap_cons, List.append_eq_nil_iff, List.replicate_eq_nil_iff, reduceCtorEq, iff_false]
     omega
+
+theorem rep_zip_map (f : β → γ) {δ : Type} (g : β → δ) (n : Nat) (xs : List β) :
+    (rep n (xs.map f)).zip (rep n (xs.map g)) = rep n (xs.map (fun x => (f x, g x))) := by
+  induction xs with
+  | nil => simp [rep]
+  | cons x xs ih =>
+    simp only [rep, List.map_cons, List.flatMap_cons] at ih ⊢
+    rw [List.zip_append (by simp), ih, List.zip_replicate']
 
 end Rep
 
@@ -455,3 +463,166 @@ theorem maxOf_isSome {lls : List α} (h : lls ≠ []) : ∃ m, maxOf lls = some 
 
 end Laws
 end Reject
+
+/-! ## the iterative loop -/
+namespace Iter
+open Reject
+
+/-- the evaluated blocks `(start, n)` tile `[s, e)`: consecutive, in order, no gap, no overlap -/
+def Tiles : List (Nat × Nat) → Nat → Nat → Prop
+  | [], s, e => s = e
+  | b :: bs, s, e => b.1 = s ∧ Tiles bs (s + b.2) e
+
+theorem tiles_append : ∀ (bs : List (Nat × Nat)) (s m n : Nat), Tiles bs s m → Tiles (bs ++ [(m, n)]) s (m + n)
+  | [], s, m, n, h => by simp [Tiles] at h ⊢; exact ⟨h.symm, h⟩
+  | b :: bs, s, m, n, h => by
+    obtain ⟨h1, h2⟩ := h
+    exact ⟨h1, tiles_append bs _ m n h2⟩
+
+theorem tiles_le : ∀ (bs : List (Nat × Nat)) (s e : Nat), Tiles bs s e → s ≤ e
+  | [], s, e, h => by simp [Tiles] at h; omega
+  | b :: bs, s, e, h => by have := tiles_le bs _ e h.2; omega
+
+/-- the tiles enumerate every position of `[s, e)` exactly once, in order; their sizes add up to `e - s` -/
+theorem tiles_cover : ∀ (bs : List (Nat × Nat)) (s e : Nat), Tiles bs s e →
+    bs.flatMap (fun b => List.range' b.1 b.2) = List.range' s (e - s) ∧ (bs.map (·.2)).sum = e - s
+  | [], s, e, h => by simp [Tiles] at h; subst h; simp
+  | b :: bs, s, e, h => by
+    obtain ⟨h1, h2⟩ := h
+    obtain ⟨ih1, ih2⟩ := tiles_cover bs _ e h2
+    have hle := tiles_le bs _ e h2
+    constructor
+    · simp only [List.flatMap_cons, ih1, h1]
+      have : e - s = b.2 + (e - (s + b.2)) := by omega
+      rw [this, List.range'_append_1]
+    · simp only [List.map_cons, List.sum_cons, ih2]; omega
+
+section Loop
+variable {α : Type} [LT α] [DecidableLT α] [Sub α] [Max α]
+
+theorem clamp_le (budget start want : Nat) (h : start ≤ budget) : start + clamp budget start want ≤ budget := by
+  unfold clamp; split <;> omega
+
+/-- invariant of the grow-and-retest loop, for EVERY growth policy -/
+theorem loop_spec (expf : α → α) (nonFinite : α → Bool) (guard : Bool) (req budget : Nat) (posLL : List α)
+    (grow : Nat → Nat → Nat → Nat → Nat) : ∀ (fuel round : Nat) (uus : List (List α)) (start nProc : Nat)
+    (all : List α) (blocks : List (Nat × Nat)) (lo : LoopOut α),
+    all = posLL.take start → start + nProc ≤ budget → budget ≤ posLL.length → Tiles blocks 0 start →
+    loop expf nonFinite guard req budget posLL grow fuel round uus start nProc all blocks = .ok lo →
+    lo.evaluated ≤ budget ∧ Tiles lo.blocks 0 lo.evaluated ∧ lo.all = posLL.take lo.evaluated ∧
+    (∃ k, uus[k]? = some lo.uuLast ∧ lo.blocks.length = blocks.length + k + 1) ∧
+    lo.uuLast.length = lo.all.length ∧
+    lo.good = (goodPos expf lo.all lo.uuLast).take req ∧ goodPos expf lo.all lo.uuLast ≠ [] ∧
+    (guard = true → ∀ l ∈ lo.all, nonFinite l = false) := by
+  intro fuel
+  induction fuel with
+  | zero => intro round uus start nProc all blocks lo _ _ _ _ h; simp [loop] at h
+  | succ fuel ih =>
+    intro round uus start nProc all blocks lo hall hb hbl ht h
+    have hall' : all ++ (posLL.drop start).take nProc = posLL.take (start + nProc) := by
+      rw [hall, List.take_add]
+    have ht' : Tiles (blocks ++ [(start, nProc)]) 0 (start + nProc) := tiles_append blocks 0 start nProc ht
+    unfold loop at h
+    simp only [hall'] at h
+    split at h
+    · simp at h
+    · rename_i hg
+      split at h
+      · simp at h
+      · rename_i uu uus'
+        split at h
+        · simp at h
+        · rename_i hlen
+          split at h
+          · simp at h
+          · rename_i hne
+            have hgfin : guard = true → ∀ l ∈ posLL.take (start + nProc), nonFinite l = false := by
+              intro hgt l hl
+              simp only [hgt, Bool.true_and, Bool.or_eq_true, List.any_eq_true, not_or, not_exists, not_and,
+                Bool.not_eq_true] at hg
+              exact hg.1 l hl
+            have hne' : goodPos expf (posLL.take (start + nProc)) uu ≠ [] := by
+              simpa using hne
+            have hlen' : uu.length = (posLL.take (start + nProc)).length := by
+              simpa using hlen
+            split at h
+            · simp only [Except.ok.injEq] at h
+              subst h
+              exact ⟨hb, ht', rfl, ⟨0, by simp, by simp⟩, hlen', rfl, hne', hgfin⟩
+            · split at h
+              · simp only [Except.ok.injEq] at h
+                subst h
+                exact ⟨hb, ht', rfl, ⟨0, by simp, by simp⟩, hlen', rfl, hne', hgfin⟩
+              · obtain ⟨r1, r2, r3, ⟨k, hk, hkl⟩, r5, r6, r7, r8⟩ :=
+                  ih (round + 1) uus' (start + nProc) _ _ _ lo rfl (clamp_le budget _ _ hb) hbl ht' h
+                refine ⟨r1, r2, r3, ⟨k + 1, by simpa using hk, ?_⟩, r5, r6, r7, r8⟩
+                rw [hkl]; simp; omega
+
+end Loop
+
+section Sample
+variable {α ρ : Type} [LT α] [DecidableLT α] [Sub α] [Max α]
+
+/-- everything a successful `iterativeSample` guarantees (for EVERY growth policy `grow`) -/
+theorem iterativeSample_facts {expf : α → α} {nonFinite : α → Bool} {llf : ρ → α} {lib : List (LibRow ρ α)}
+    {c : Cfg} {idx : Option (List Nat)} {grow : Nat → Nat → Nat → Nat → Nat} {uus : List (List α)}
+    {res : Res ρ α} (h : iterativeSample expf nonFinite llf lib c idx grow uus = .ok res) :
+    c.maxPrior.getD lib.length ≤ lib.length ∧
+    c.initBatch.getD (c.growth * c.req) ≤ c.maxPrior.getD lib.length ∧
+    (evalOrder (c.maxPrior.getD lib.length) idx).length = c.maxPrior.getD lib.length ∧
+    res.evaluated ≤ c.maxPrior.getD lib.length ∧ Tiles res.blocks 0 res.evaluated ∧
+    res.out.evalRows = (evalOrder (c.maxPrior.getD lib.length) idx).take res.evaluated ∧
+    gather (lib.map (fun r => llf r.nonlin)) res.out.evalRows = some res.out.allLls ∧
+    (∃ k, uus[k]? = some res.uuLast ∧ res.blocks.length = k + 1) ∧
+    res.uuLast.length = res.out.allLls.length ∧
+    res.out.good = (goodPos expf res.out.allLls res.uuLast).take c.req ∧
+    goodPos expf res.out.allLls res.uuLast ≠ [] ∧
+    (c.guard = true → ∀ l ∈ res.out.allLls, nonFinite l = false) ∧
+    gather res.out.evalRows res.out.good = some res.out.full ∧
+    ∃ recs, gather lib res.out.full = some recs ∧
+      res.out.rows = rep c.nLinear (recs.map (·.nonlin)) ∧ res.out.lnPrior = rep c.nLinear (recs.map (·.lnPrior)) ∧
+      res.out.lnLike = rep c.nLinear (recs.map (fun r => llf r.nonlin)) := by
+  unfold iterativeSample at h
+  dsimp only at h
+  split at h
+  · simp at h
+  · rename_i hb
+    split at h
+    · simp at h
+    · rename_i hi
+      split at h
+      · simp at h
+      · rename_i evRows hev
+        split at h
+        · simp at h
+        · rename_i hol
+          split at h
+          · simp at h
+          · rename_i lo hlo
+            split at h
+            · simp at h
+            · rename_i out hout
+              simp only [Except.ok.injEq] at h
+              subst h
+              have hol' : (evalOrder (c.maxPrior.getD lib.length) idx).length = c.maxPrior.getD lib.length := by
+                simpa using hol
+              have hpl : c.maxPrior.getD lib.length ≤ (evRows.map (fun r => llf r.nonlin)).length := by
+                rw [List.length_map, gather_length hev, hol']
+              obtain ⟨r1, r2, r3, r4, r5, r6, r7, r8⟩ :=
+                loop_spec expf nonFinite c.guard c.req _ _ grow c.maxiter 0 uus 0 _ [] [] lo (by simp)
+                  (by simp; omega) hpl (by simp [Tiles]) hlo
+              have hev' := gather_take lib _ lo.evaluated hev
+              rw [r3, ← List.map_take] at hout
+              obtain ⟨a1, a2, a3, a4, recs, a5, _, a6, a7, a8⟩ := assemble_attached llf hev' hout
+              have hall : out.allLls = lo.all := by rw [a2, r3, List.map_take]
+              refine ⟨by omega, by omega, hol', r1, r2, a1, ?_, ?_, ?_, ?_, ?_, ?_, ?_, recs, a5, a6, a7, a8⟩
+              · rw [a1, a2, gather_map, hev']; rfl
+              · simpa using r4
+              · rw [hall]; exact r5
+              · rw [a3, hall]; exact r6
+              · rw [hall]; exact r7
+              · rw [hall]; exact r8
+              · rw [a1, a3]; exact a4
+
+end Sample
+end Iter
